@@ -68,6 +68,10 @@ func (m *monitor) history(idx int) {
 		steps = 16 + rng.Intn(15) // long ones dominate: they cross the boundaries
 	}
 	base := w.p0A
+	if idx%5 == 4 {
+		base = w.p0C // these histories cross a fork boundary: the fork version of the signing domain changes on the way
+		r.Count("histories_starting_before_a_fork_boundary", 1)
+	}
 	direct := rng.Intn(3) == 0
 	boot := randHdr(rng, base*slotsPerPeriod+rn(rng, 6000))
 	c := w.newClient(&storeSpec{fin: boot, opt: boot, cur: w.committeeAt(base, nC, base).z})
@@ -159,17 +163,27 @@ func (m *monitor) history(idx int) {
 			fin = alignedFin(att)
 			sig = att + 1 + rn(rng, 2)
 		}
+		if sig == w.forkSlot {
+			sig++ // first slot of a fork: the consensus spec (signature_slot-1) and the code pick different fork versions; not decided by the statement
+		}
+		straddles := att < w.forkSlot && sig > w.forkSlot
+		if straddles {
+			r.Count("history_updates_straddling_the_fork_boundary", 1)
+		}
 		part, bitsv := histParticipation(rng)
 		corr := "none"
 		if rng.Intn(100) < 18 {
 			corr = histCorruptions[rng.Intn(len(histCorruptions))]
+		}
+		if straddles && rng.Intn(2) == 0 {
+			corr = "fork-version-of-attested-slot"
 		}
 		p := &updParams{
 			kind: kind, fork: forks[rng.Intn(3)], att: att, fin: fin, sig: sig, bits: bitsv,
 			signer:      w.committeeAt(base, nC, period(sig)),
 			next:        w.committeeAt(base, nC, period(att)+1),
 			curInState:  w.committeeAt(base, nC, period(att)),
-			forkVersion: w.forkVersion, genesisRoot: w.genesisRoot, domainType: domainSyncCommittee,
+			forkVersion: w.fvAt(sig), genesisRoot: w.genesisRoot, domainType: domainSyncCommittee,
 		}
 		if (move == "skip" || move == "premature-cross") && rng.Intn(2) == 0 {
 			// signed by the committee the store holds, so that only the period check can reject it
